@@ -274,7 +274,7 @@ func ssCase(t *rapid.T, gr grp, maxN int) {
 		}
 	}
 	// wrong threshold argument / truncated commitment must not verify
-	if secretsharing.Verify(uint(tt+1), shares[0], com) || (tt > 0 && secretsharing.Verify(uint(tt-1), shares[0], com[:tt])) && false {
+	if secretsharing.Verify(uint(tt+1), shares[0], com) {
 		vlib.Report(t, "C17/ss/"+gr.name+"/verify-wrong-threshold", desc()+": Verify with threshold t+1 accepted a t-commitment")
 		return
 	}
@@ -796,20 +796,6 @@ func TestC17ThresholdRSAAll(t *testing.T) {
 		vlib.Exhaustive("C17 tss/rsa: every k-subset of the players for every (l,k), 2<=l<=6, 1<=k<=l (one deal per (l,k) in quick, four in thorough)", total, "all shards together; each subset in ascending and one rotated order")
 	}
 }
-
-// directTB adapts ReportDirect to the vlib.TB interface used by deal/combine.
-type directTB struct {
-	t      *testing.T
-	replay map[string]interface{}
-	failed bool
-}
-
-func (d *directTB) Fatalf(format string, args ...any) {
-	// vlib.Report formats "VERIF-VIOLATION key=%s :: %s"
-	d.failed = true
-	d.t.Errorf(format, args...)
-}
-func (d *directTB) Logf(format string, args ...any) { d.t.Logf(format, args...) }
 
 func dealDirect(t *testing.T, c rsaCfg) (*dealt, bool) {
 	tb := &reportTB{t: t, cfg: c}
